@@ -410,6 +410,37 @@ P("seed-C19-4", ["C19"], "seeded/C19-4/patch.diff")
 P("seed-C20-3", ["C20"], "seeded/C20-3/patch.diff")
 P("seed-C20-4", ["C20"], "seeded/C20-4/patch.diff")
 
+# ------------------------------------------------------------------ round-3 seeds (those the property's own check reports)
+P("seed-C01-6", ["C01"], "seeded/C01-6/patch.diff")
+P("seed-C02-5", ["C02"], "seeded/C02-5/patch.diff")
+P("seed-C02-6", ["C02"], "seeded/C02-6/patch.diff")
+P("seed-C03-5", ["C03"], "seeded/C03-5/patch.diff")
+P("seed-C04-5", ["C04"], "seeded/C04-5/patch.diff")
+P("seed-C06-5", ["C06"], "seeded/C06-5/patch.diff")
+P("seed-C06-6", ["C06"], "seeded/C06-6/patch.diff")
+P("seed-C07-5", ["C07"], "seeded/C07-5/patch.diff")
+P("seed-C07-6", ["C07"], "seeded/C07-6/patch.diff")
+P("seed-C08-5", ["C08"], "seeded/C08-5/patch.diff")
+P("seed-C08-6", ["C08"], "seeded/C08-6/patch.diff")
+P("seed-C09-5", ["C09"], "seeded/C09-5/patch.diff")
+P("seed-C09-6", ["C09"], "seeded/C09-6/patch.diff")
+P("seed-C10-6", ["C10"], "seeded/C10-6/patch.diff")
+P("seed-C11-6", ["C11"], "seeded/C11-6/patch.diff")
+P("seed-C12-5", ["C12"], "seeded/C12-5/patch.diff")
+P("seed-C12-6", ["C12"], "seeded/C12-6/patch.diff")
+P("seed-C13-5", ["C13"], "seeded/C13-5/patch.diff")
+P("seed-C13-6", ["C13"], "seeded/C13-6/patch.diff")
+P("seed-C14-5", ["C14"], "seeded/C14-5/patch.diff")
+P("seed-C15-5", ["C15"], "seeded/C15-5/patch.diff")
+P("seed-C15-6", ["C15"], "seeded/C15-6/patch.diff")
+P("seed-C16-5", ["C16"], "seeded/C16-5/patch.diff")
+P("seed-C17-5", ["C17"], "seeded/C17-5/patch.diff")
+P("seed-C18-5", ["C18"], "seeded/C18-5/patch.diff")
+P("seed-C18-6", ["C18"], "seeded/C18-6/patch.diff")
+P("seed-C19-5", ["C19"], "seeded/C19-5/patch.diff")
+P("seed-C20-5", ["C20"], "seeded/C20-5/patch.diff")
+P("seed-C20-6", ["C20"], "seeded/C20-6/patch.diff")
+
 # ------------------------------------------------------------------ backward party scan (R-C17-4 / R-C02-5 / R-C01-10)
 _PL = ('                plaintiff = "".join(\n                    str(w) for w in words[max(index - 2, 0) : index]\n                ).lstrip("( ")\n'
        '                citation.metadata.plaintiff = plaintiff.rstrip("( ")\n                # the full span starts where the plaintiff starts\n'
@@ -436,3 +467,15 @@ N("backscan-benign-strip-after-lstrip", ["C17", "C02", "C01"], "helpers.py", '  
 # ------------------------------------------------------------------ generated whole-package benign rewrites (every property)
 for _g in ("reformat", "logging", "rename-locals"):
     VARIANTS.append({"id": f"gen-{_g}", "kind": "benign", "props": ["*"], "gen": _g})
+
+# ------------------------------------------------------------------ agent-made behaviour-preserving refactorings (benign/, every property)
+# not listed (reported as violations of a structural rule although behaviour is unchanged -- see benign/KNOWN-LIMITS.md):
+#   r2-annotate-4, r2-find-1, r2-helpers-3, r2-resolve-2, r2-tokenizers-4
+import glob as _glob
+import os as _os
+
+_SKIP = {"r2-annotate-4", "r2-find-1", "r2-helpers-3", "r2-resolve-2", "r2-tokenizers-4"}
+for _f in sorted(_glob.glob(_os.path.join(_os.path.dirname(_os.path.dirname(__file__)), "benign", "*.diff"))):
+    _n = _os.path.basename(_f)[:-5]
+    if _n not in _SKIP:
+        VARIANTS.append({"id": f"benign-{_n}", "kind": "benign", "props": ["*"], "patch": f"benign/{_n}.diff"})
